@@ -138,3 +138,47 @@ Print Assumptions C05_min_one_tick.
 Example C05_boundary_witness :
   ticks_of rnd64 100 (rnd64 (57 # 100)) = 56%Z /\ floorQ ((57 # 100) * 100) = 57%Z.
 Proof. split; vm_compute; reflexivity. Qed.
+
+(* Part 3: simulator level (Proofs/SimCorollaryFacts.v). In every tick of every run of every shipped
+   scheduler ([sim_reach C a 0 (init_sim ..) t s]: [s] is a state the run passes through), a running
+   container [c] that no suspension command of the tick names is advanced by exactly one step of the state
+   machine of Part 1 ([ctick], giving [c1]); the OOM killer then leaves it alone or kills it ([c5]); if it is
+   still unfinished it is in the running list of its pool after the tick, otherwise it is reported in the
+   results of this very tick (successful iff [c5 = c1] finished by itself, C04_kill_justified).
+   Hence the timeline of Part 1 (C05_run_success: success exactly at tick [total]) is the timeline of a
+   container in a run for as long as it is neither suspended nor killed; the composition over a whole run
+   (the [total]-th simulator tick after the creation reports the success) is NOT stated here as one theorem
+   for arbitrary schedulers: it is proved for uncontended naive runs in C06_uncontended_latency_sim. *)
+From Eudoxia Require Import Model.Pool Model.Executor Model.Sched Model.Simulator Proofs.OomFacts
+  Proofs.PriorityPoolRunFacts Proofs.SimCorollaryFacts.
+
+Theorem C05_sim_container_tick : forall C a np cpu ram t s newp s' lg i p c,
+  sim_reach C a 0%Z (init_sim C np cpu ram) t s ->
+  sim_tick C a t s newp = Ok (s', lg) ->
+  nth_error (e_pools (sm_exec s)) i = Some p -> In c (p_active p) ->
+  (forall su, In su (tl_susp lg) -> su_cid su <> c_id c) ->
+  exists p' wa consa wb consb c1 c5,
+    nth_error (e_pools (sm_exec s')) i = Some p' /\
+    ctick C wa consa c = Ok (wb, consb, c1) /\
+    (c5 = c1 \/ c5 = dead c1 /\ c_completed c1 = false) /\
+    (c_completed c5 = false -> In c5 (p_active p')) /\
+    (c_completed c5 = true -> In (result_of (p_id p) c5) (tl_results lg)).
+Proof. exact SimCorollaryFacts.C05_sim_container_tick. Qed.
+Print Assumptions C05_sim_container_tick.
+
+(* non-vacuity: tick 1 of the overbook run of C04_sim_witness; container 1 (one tick old) runs in pool 0, the
+   tick has no suspension; it is ticked a second time and then killed by the pool-level loop (result (1, OOM)) *)
+Example C05_sim_witness :
+  sim_reach SimCorExamples.Ck AOverbook 0%Z (init_sim SimCorExamples.Ck 1 10%Z 10%Q) 1%Z SimCorExamples.k1 /\
+  sim_tick SimCorExamples.Ck AOverbook 1%Z SimCorExamples.k1 [] = Ok (SimCorExamples.k2, SimCorExamples.klg1) /\
+  (exists p c, nth_error (e_pools (sm_exec SimCorExamples.k1)) 0 = Some p /\ In c (p_active p) /\ c_id c = 1 /\
+     forall su, In su (tl_susp SimCorExamples.klg1) -> su_cid su <> c_id c) /\
+  map (fun p => map (fun c => (c_id c, c_ticks c, c_completed c)) (p_active p))
+      (e_pools (sm_exec SimCorExamples.k1)) = [[(1, 1%Z, false)]] /\
+  map (fun p => map (fun c => (c_id c, c_ticks c, c_completed c)) (p_active p))
+      (e_pools (sm_exec SimCorExamples.k2)) = [[(2, 1%Z, false)]] /\
+  map (fun r => (r_cid r, r_err r)) (tl_results SimCorExamples.klg1) = [(1, true)].
+Proof.
+  split; [exact SimCorExamples.k_reach1|]. split; [exact SimCorExamples.k_tick1|].
+  split; [exact SimCorExamples.k_active1|]. exact SimCorExamples.k_facts1.
+Qed.
